@@ -174,22 +174,40 @@ def rule_tx(R):
     qc = outq.role_fn(f, "queue_control")
     qr = outq.role_fn(f, "queue_release")
     m = 0
+
+    def checked_edges(b, arg):
+        """success edges of the size checks in b that are applied to the packet identified by `arg` (the check receives
+        it, or a length computed from it)"""
+        edges, checks = checker_cont_edges(f, b, allc)
+        good = []
+        for ck in checks:
+            for a in ck.args:
+                if any(same_shape(x, arg) for x in walk(b.operand_term(a)) if isinstance(x, tuple)):
+                    ce, _ = ops.cont_edges(b, ck)
+                    good += ce
+                    break
+        return good
+
+    def checks_itself(target):
+        """the enqueue function checks the size of what it is about to queue before it pushes it"""
+        tb = f.code(target)
+        if tb.arg_count < 2:
+            return False
+        pushes = [c for c in tb.calls.values() if c.bb in tb.reachable and c.is_("push")]
+        good = checked_edges(tb, ("param", tb.param_name(2)))
+        return bool(pushes) and bool(good) and all(tb.must_pass([0], [pc.bb], via_edges=good)[0] for pc in pushes)
+
+    internal = {target.name: checks_itself(target) for target in (qc, qr)}
     for b in f.bodies.values():
         if f.in_fuzzing(b):
             continue
         for target in (qc, qr):
             for c in outq.calls_to(f, b, target):
                 m += 1
-                edges, checks = checker_cont_edges(f, b, allc)
                 # the check must be applied to the same action / id
                 arg = b.operand_term(c.args[1])
-                good = []
-                for ck in checks:
-                    for a in ck.args:
-                        if same_shape(b.operand_term(a), arg):
-                            ce, _ = ops.cont_edges(b, ck)
-                            good += ce
-                ok = bool(good) and b.must_pass([0], [c.bb], via_edges=good)[0]
+                good = checked_edges(b, arg)
+                ok = internal[target.name] or (bool(good) and b.must_pass([0], [c.bb], via_edges=good)[0])
                 R.ob("tx/precheck/%s#%d" % (b.fn_name, m), ok,
                      "`%s` in %s is dominated by the success edge of the size pre-check of the very packet it queues: if a "
                      "mandatory acknowledgement does not fit the broker limit the connection is closed instead (the error "
